@@ -407,10 +407,11 @@ impl<'a> OpenResponsesSsePipe<'a> {
     }
 
     async fn push_sse_str(&mut self, chunk: &str) -> bool {
-        let parsed = self.decoder.push(chunk);
+        let mut parsed = self.decoder.push(chunk);
         if parsed.is_empty() {
             return false;
         }
+        truncate_after_done(&mut parsed);
 
         let mut frames = Vec::new();
         for event in &parsed {
@@ -446,10 +447,12 @@ impl<'a> OpenResponsesSsePipe<'a> {
                 Err(err) => {
                     let valid = err.valid_up_to();
                     if valid == 0 {
-                        if err.error_len().is_none() {
+                        let Some(invalid_len) = err.error_len() else {
                             break;
-                        }
-                        utf8_buf.remove(0);
+                        };
+                        // Same rule as for an invalid sequence later in the buffer: one U+FFFD per
+                        // maximal invalid sequence, wherever the chunk boundary fell.
+                        utf8_buf.drain(..invalid_len.min(utf8_buf.len()));
                         saw_done = self.push_sse_str("\u{FFFD}").await;
                         if saw_done {
                             utf8_buf.clear();
@@ -488,10 +491,11 @@ impl<'a> OpenResponsesSsePipe<'a> {
     }
 
     async fn finish(&mut self) -> bool {
-        let parsed = self.decoder.finish();
+        let mut parsed = self.decoder.finish();
         if parsed.is_empty() {
             return false;
         }
+        truncate_after_done(&mut parsed);
 
         let mut frames = Vec::new();
         for event in &parsed {
@@ -512,6 +516,17 @@ impl<'a> OpenResponsesSsePipe<'a> {
         *self.seq += frame_count as u64;
 
         saw_done
+    }
+}
+
+/// The stream ends at the terminal marker: events that follow `[DONE]` are dropped whether they
+/// arrive in the same network chunk or in a later one.
+fn truncate_after_done(parsed: &mut Vec<ParsedEvent>) {
+    if let Some(pos) = parsed
+        .iter()
+        .position(|event| event.kind == ParsedEventKind::Done)
+    {
+        parsed.truncate(pos + 1);
     }
 }
 
